@@ -80,16 +80,103 @@ Example C12_rel_nonvacuous :
   normalised (Rdpe fhalf 5) /\ nonzero (Rdpe fhalf 5) /\ LONG_MIN + 1 <= 5 + 5 <= LONG_MAX - 2.
 Proof. split. apply normalised_half. split. apply nonzero_half. vm_compute. split; intro; discriminate. Qed.
 
-(* "saturating instead of wrapping on exponent overflow" is FALSE for the code: witnesses with
-   normalised in-range operands (each is replayed on the real functions by checks/C12.py) *)
+Theorem C12_inv_rel : forall x, normalised x -> nonzero x ->
+  LONG_MIN + 1 <= - esp x <= LONG_MAX - 2 ->
+  normalised (rdpe_inv x) /\
+  (Rabs (rval (rdpe_inv x) - / rval x) <= bpow radix2 (-53) * Rabs (/ rval x))%R.
+Proof. exact inv_rel. Qed.
+Print Assumptions C12_inv_rel.
+
+(* "saturating instead of wrapping on exponent overflow", repaired code
+   (fixes/C12_rdpe_exponent_saturation.patch, C12_rdpe_2exp_saturation.patch): every exponent sum or
+   difference of rdpe_Norm, rdpe_inv, rdpe_sqr(_eq), rdpe_div(_eq), rdpe_*_2exp, cdpe_mul_e, cdpe_div_e,
+   cdpe_sqr goes through rdpe_set_esp, which never wraps: in range it is exact, above LONG_MAX the value
+   becomes +-1/2 * 2^LONG_MAX, below LONG_MIN +-1/2 * 2^LONG_MIN, sign of the mantissa kept *)
+Theorem C12_saturates : forall (m : b64) (e0 a b : Z) (sub : bool),
+  is_finite m = true -> B2R m <> 0%R -> in_long a -> in_long b ->
+  let s := if sub then a - b else a + b in
+  let r := rdpe_set_esp (Rdpe m e0) a b sub in
+  in_long (esp r) /\
+  (in_long s -> r = Rdpe m s) /\
+  (LONG_MAX < s -> r = Rdpe (if flt0 m then fmhalf else fhalf) LONG_MAX) /\
+  (s < LONG_MIN -> r = Rdpe (if flt0 m then fmhalf else fhalf) LONG_MIN).
+Proof. exact set_esp_saturates. Qed.
+Print Assumptions C12_saturates.
+
+(* ... and at the level of an operation: the square of a normalised number whose exponent doubles out
+   of the range of long is exactly RDPE_MAX / RDPE_MIN (same exponent, same mantissa bits) *)
+Theorem C12_sqr_saturates : forall x, normalised x -> nonzero x -> in_long (esp x) ->
+  (LONG_MAX < esp x + esp x -> same_rdpe (rdpe_sqr x) RDPE_MAX) /\
+  (esp x + esp x < LONG_MIN -> same_rdpe (rdpe_sqr x) RDPE_MIN).
+Proof. exact sqr_saturates. Qed.
+Print Assumptions C12_sqr_saturates.
+Example C12_saturates_nonvacuous :   (* the operands of the refutation below, through the repaired code *)
+  (esp (rdpe_sqr (Rdpe fhalf two62)) = LONG_MAX /\ esp (rdpe_sqr (Rdpe fhalf (two62 + 1))) = LONG_MAX /\
+   to_bits (mnt (rdpe_sqr (Rdpe fhalf (two62 + 1)))) = to_bits fhalf) /\
+  esp (rdpe_sqrt RDPE_MAX) = two62 /\
+  (esp (rdpe_inv (Rdpe fhalf LONG_MIN)) = LONG_MAX /\ to_bits (mnt (rdpe_inv (Rdpe fhalf LONG_MIN))) = to_bits fhalf) /\
+  esp (rdpe_mul_2exp (Rdpe fhalf LONG_MAX) 1) = LONG_MAX /\
+  rdpe_mul_2exp rdpe_zero 5 = rdpe_zero.
+Proof. exact saturates_witnesses_fixed. Qed.
+
+(* the code as it was does NOT saturate: witnesses with normalised in-range operands
+   (each is replayed on the real functions by checks/C12.py) *)
 Theorem C12_saturates_refuted :
-  (esp (rdpe_sqr (Rdpe fhalf two62)) = LONG_MAX /\ to_bits (mnt (rdpe_sqr (Rdpe fhalf two62))) = to_bits fhalf /\
-   esp (rdpe_sqr (Rdpe fhalf (two62 + 1))) = LONG_MIN + 1) /\
-  esp (rdpe_sqrt RDPE_MAX) = - two62 /\
-  esp (rdpe_inv (Rdpe fhalf LONG_MIN)) = LONG_MIN + 2 /\
+  (esp (rdpe_sqr_old (Rdpe fhalf two62)) = LONG_MAX /\ to_bits (mnt (rdpe_sqr_old (Rdpe fhalf two62))) = to_bits fhalf /\
+   esp (rdpe_sqr_old (Rdpe fhalf (two62 + 1))) = LONG_MIN + 1) /\
+  esp (rdpe_sqrt_old RDPE_MAX) = - two62 /\
+  esp (rdpe_inv_old (Rdpe fhalf LONG_MIN)) = LONG_MIN + 2 /\
   (esp (rdpe_mul_old (Rdpe fhalf LONG_MIN) (Rdpe fhalf (-1))) = LONG_MAX /\
    to_bits (mnt (rdpe_mul_old (Rdpe fhalf LONG_MIN) (Rdpe fhalf (-1)))) = to_bits fhalf) /\
   to_bits (rdpe_get_d_old (Rdpe fhalf 4294967296)) = to_bits fhalf /\
-  esp (rdpe_mul_2exp (Rdpe fhalf LONG_MAX) 1) = LONG_MIN.
+  esp (rdpe_mul_2exp_old (Rdpe fhalf LONG_MAX) 1) = LONG_MIN.
 Proof. exact saturates_refuted. Qed.
 Print Assumptions C12_saturates_refuted.
+
+(* ---- partial results (what is missing is said for each) --------------------------------------- *)
+
+(* rdpe_cmp on the repaired code agrees with the real order when rdpe_sub computes the difference
+   exactly: an operand is zero, or same sign and same exponent.  MISSING: operands of different
+   exponents / mixed signs (the rounded branches of rdpe_sub; sign preservation of the rounding). *)
+Theorem C12_cmp_correct_partial : forall x y, normalised x -> normalised y -> in_long (esp x) ->
+  (B2R (mnt y) = 0%R \/ B2R (mnt x) = 0%R \/
+   (esp x = esp y /\ ((0 < B2R (mnt x))%R /\ (0 < B2R (mnt y))%R \/ (B2R (mnt x) < 0)%R /\ (B2R (mnt y) < 0)%R))) ->
+  rdpe_cmp x y = match Rcompare (rval x) (rval y) with Lt => -1 | Eq => 0 | Gt => 1 end.
+Proof. exact cmp_correct_partial. Qed.
+Print Assumptions C12_cmp_correct_partial.
+
+(* rdpe_add, the exponent-distance shortcut (delta > 53): the small operand is dropped, 2 ulps.
+   MISSING: the branches 0 <= |delta| <= 53 (ldexp exact + one rounded addition, 1 ulp). *)
+Theorem C12_add_rel_partial : forall x y, normalised x -> normalised y -> nonzero x -> nonzero y ->
+  in_long (esp x) -> in_long (esp y) -> esp x < LONG_MAX -> 53 < esp x - esp y ->
+  rdpe_add x y = x /\
+  (Rabs (rval (rdpe_add x y) - (rval x + rval y)) <= 2 * bpow radix2 (-53) * Rabs (rval x + rval y))%R.
+Proof. exact add_shortcut_rel. Qed.
+Print Assumptions C12_add_rel_partial.
+
+(* rdpe_sub: the shortcut (2 ulps) and the cancellation case (same sign, same exponent: EXACT, Sterbenz).
+   MISSING: 0 < |delta| <= 53 and mixed signs at delta = 0. *)
+Theorem C12_sub_rel_partial : forall x y, normalised x -> normalised y -> nonzero x -> nonzero y ->
+  in_long (esp x) -> in_long (esp y) ->
+  (53 < esp x - esp y ->
+     (Rabs (rval (rdpe_sub x y) - (rval x - rval y)) <= 2 * bpow radix2 (-53) * Rabs (rval x - rval y))%R) /\
+  (esp x = esp y -> LONG_MIN + 1074 <= esp x <= LONG_MAX - 1024 ->
+   ((0 < B2R (mnt x))%R /\ (0 < B2R (mnt y))%R \/ (B2R (mnt x) < 0)%R /\ (B2R (mnt y) < 0)%R) ->
+     normalised (rdpe_sub x y) /\ rval (rdpe_sub x y) = (rval x - rval y)%R).
+Proof.
+  intros x y Nx Ny Zx Zy Lx Ly. split.
+  - intro H. exact (proj2 (sub_shortcut_rel x y Nx Ny Zx Zy Lx Ly H)).
+  - intros He HE Hs. exact (sub_cancel_exact x y Nx Ny Zx Zy He HE Hs).
+Qed.
+Print Assumptions C12_sub_rel_partial.
+Example C12_sub_cancel_nonvacuous :    (* (1 - 2^-53) * 2^7 - 0.5 * 2^7: adjacent binade ends, exact *)
+  let a : b64 := of_bits 4607182418800017407 in
+  esp (rdpe_sub (Rdpe a 7) (Rdpe fhalf 7)) = 6 /\ to_bits (mnt (rdpe_sub (Rdpe a 7) (Rdpe fhalf 7))) = 4607182418800017406.
+Proof. vm_compute. split; reflexivity. Qed.
+
+(* rdpe_sqrt for even exponents: 1 ulp.  MISSING: odd exponents (m / 2 exact, then the same argument). *)
+Theorem C12_sqrt_rel_partial : forall x, normalised x -> (0 < B2R (mnt x))%R -> Z.even (esp x) = true -> in_long (esp x) ->
+  normalised (rdpe_sqrt x) /\
+  (Rabs (rval (rdpe_sqrt x) - sqrt (rval x)) <= bpow radix2 (-53) * Rabs (sqrt (rval x)))%R.
+Proof. exact sqrt_rel_even. Qed.
+Print Assumptions C12_sqrt_rel_partial.
